@@ -1,7 +1,7 @@
 //! Per-stream tables: C09 (string deduplication) and C10 (reference tracking).
 use bridge::dynrec::{dyn_decode, dyn_encode};
 use bridge::rt::{hex, par_items, val_json, Run, Stats};
-use bridge::tables::{flat_decode, flat_encode, graph_decode, graph_encode, typed_lookup, wgraph_encode, Graph, Node, WGraph, WNode};
+use bridge::tables::{flat_decode, flat_encode, graph_decode, graph_decode_at, graph_encode, graph_encode_at, typed_lookup, wgraph_encode, Graph, GraphPlace, Node, WGraph, WNode, GRAPH_PLACES};
 use bridge::Out;
 use refmodel::wire::{vari, varu};
 use refmodel::*;
@@ -24,9 +24,10 @@ enum Placement {
     Evolved,
     EvolvedRemovedNames,
     EvolvedInEvolved,
+    EvolvedOptionalThenRemoved,
 }
 
-const PLACEMENTS: [Placement; 7] = [
+const PLACEMENTS: [Placement; 8] = [
     Placement::Flat,
     Placement::Tuple,
     Placement::Seq,
@@ -34,6 +35,7 @@ const PLACEMENTS: [Placement; 7] = [
     Placement::Evolved,
     Placement::EvolvedRemovedNames,
     Placement::EvolvedInEvolved,
+    Placement::EvolvedOptionalThenRemoved,
 ];
 
 fn fld(name: &str, ty: Ty) -> FieldDescr {
@@ -104,6 +106,13 @@ fn place(p: Placement, script: &[(bool, usize)], strings: &[String]) -> Option<(
             let steps = vec![Step::Removed("zz".into()), Step::MadeTransient("a".into()), Step::Removed("other".into())];
             let rd = record_of("RR", script, &natural, steps, &[]);
             Some((Ty::Record(Arc::new(rd)), Val::Rec((0..n).map(sval).collect()), natural, vec!["zz".into(), "a".into(), "other".into()]))
+        }
+        Placement::EvolvedOptionalThenRemoved => {
+            // two names that each occur in two header steps (made optional, later removed / made
+            // transient); both are also script strings. The names are numbered in step order.
+            let steps = vec![Step::MadeOptional("a".into()), Step::Removed("a".into()), Step::MadeOptional("zz".into()), Step::MadeTransient("zz".into())];
+            let rd = record_of("RQ", script, &natural, steps, &[]);
+            Some((Ty::Record(Arc::new(rd)), Val::Rec((0..n).map(sval).collect()), natural, vec!["a".into(), "a".into(), "zz".into(), "zz".into()]))
         }
         Placement::EvolvedInEvolved => {
             if n < 2 {
@@ -427,7 +436,7 @@ pub fn run_c09(tier: &str, only: Option<String>) -> i32 {
         }
         run.stats.merge(st);
     }
-    run.rule = format!("all scripts of length <= {max_len} over 8 operations (deduplicated | plain write of one of 4 strings) x 7 placements (flat, tuple, Vec, v0 record, evolved record with an added field declared first, evolved record whose header carries removed/transient names equal to script strings, evolved inside evolved); oracle: decoded == written, every write encoded as first-occurrence-plain or vari(-id) in stream-processing order, no-repeat streams identical to the plain stream, unknown ids are Err; non-trivial = script with at least one repeat");
+    run.rule = format!("all scripts of length <= {max_len} over 8 operations (deduplicated | plain write of one of 4 strings) x 8 placements (flat, tuple, Vec, v0 record, evolved record with an added field declared first, evolved record whose header carries removed/transient names equal to script strings, evolved inside evolved, evolved record whose header names two fields twice each: made optional and later removed / made transient); oracle: decoded == written, every write encoded as first-occurrence-plain or vari(-id) in stream-processing order, no-repeat streams identical to the plain stream, unknown ids are Err; non-trivial = script with at least one repeat");
     run.bounds = json!({"script_length": max_len, "strings": ["", "a", "zz", "200 x é"]});
     run.finish()
 }
@@ -585,6 +594,46 @@ fn c10_graph(adj: &Adj, st: &mut Stats, only: &Option<String>) {
                 _ => String::new(),
             };
             bad(st, "decode", json!({"bytes": hex(&b), "result": s}));
+        }
+    }
+    // the same graph as a field of a record (plain, and in either chunk of an evolved one): the
+    // markers and bodies must land where the field's bytes go, and come back as the same shape
+    for place in GRAPH_PLACES {
+        if place == GraphPlace::Top {
+            continue;
+        }
+        let want: Vec<u8> = bridge::tables::frame_at(&refb, place);
+        st.transitions += 1;
+        st.validated += 1;
+        match graph_encode_at(&g, place) {
+            Out::Ok(pb) if pb == want => {}
+            o => {
+                bad(st, &format!("stream-differs placement={place:?}"), json!({"library": format!("{o:?}").chars().take(300).collect::<String>(), "reference": hex(&want)}));
+                cleanup(&nodes);
+                return;
+            }
+        }
+        st.transitions += 1;
+        st.validated += 1;
+        match graph_decode_at(&want, place) {
+            Out::Ok(d) => {
+                let r = isomorphic(adj, &d.root);
+                let n_all = d.all.len();
+                d.dispose();
+                match r {
+                    Ok(cnt) if cnt == reachable && n_all == reachable => st.bump("embedded-in-record"),
+                    other => {
+                        bad(st, &format!("not-isomorphic placement={place:?}"), json!({"bytes": hex(&want), "problem": format!("{other:?}"), "decoded_objects": n_all}));
+                        cleanup(&nodes);
+                        return;
+                    }
+                }
+            }
+            o => {
+                bad(st, &format!("decode placement={place:?}"), json!({"bytes": hex(&want), "result": format!("{:?}", o.class())}));
+                cleanup(&nodes);
+                return;
+            }
         }
     }
     // every id rewritten to one more than the number of objects introduced so far, and to u32::MAX
@@ -842,7 +891,7 @@ pub fn run_c10(tier: &str, only: Option<String>) -> i32 {
         c10_long_chains(&mut st);
         run.stats.merge(st);
     }
-    run.rule = format!("all rooted digraphs with <= {max_n} nodes and ordered out-edge lists of length <= 2 (self-loops, diamonds, back edges, unreachable nodes), encoded by a codec that offers the node's heap address to store_ref_or_object and resolves try_read_ref through a Weak self pointer; oracle: stream == pre-order first-encounter reference stream, decoded graph isomorphic with pointer-equal sharing and distinct nodes distinct, one object per reachable node, every reference id beyond the objects introduced so far (and u32::MAX) is Err; plus all graphs with <= 3 / 4 nodes whose nodes embed a second tracked object (a core at offset 0, i.e. at the same address) with <= 1 node edge and <= 1 core edge each: distinct objects of different types at one address keep distinct ids, on the writer and on the reader side; non-trivial = graph with sharing or a cycle");
+    run.rule = format!("all rooted digraphs with <= {max_n} nodes and ordered out-edge lists of length <= 2 (self-loops, diamonds, back edges, unreachable nodes), encoded by a codec that offers the node's heap address to store_ref_or_object and resolves try_read_ref through a Weak self pointer; oracle: stream == pre-order first-encounter reference stream, decoded graph isomorphic with pointer-equal sharing and distinct nodes distinct, one object per reachable node, every reference id beyond the objects introduced so far (and u32::MAX) is Err; every graph also as a field of a record written through the real Adt API (a record without steps, and chunk 0 / chunk 1 of a record with a FieldAdded step): bytes == record framing around the same reference stream, decoded shape isomorphic, sibling fields intact; plus all graphs with <= 3 / 4 nodes whose nodes embed a second tracked object (a core at offset 0, i.e. at the same address) with <= 1 node edge and <= 1 core edge each: distinct objects of different types at one address keep distinct ids, on the writer and on the reader side; non-trivial = graph with sharing or a cycle");
     run.bounds = json!({"nodes": max_n, "out_degree": 2});
     run.assumptions = vec!["the harness codec is safe code: identities are heap addresses owned by live Rc's".into()];
     run.finish()
